@@ -666,16 +666,7 @@ func (fr *Frame) havocCall(in ssa.Instruction, name string, args []Val, resT typ
 		nst = st.havocSet(set)
 		fc.note("call of " + name + " without contract: result unconstrained, inferred frame applied")
 	} else {
-		keep := map[string]bool{}
-		for n := range fc.sorts {
-			if isGhostArr(n) && n != "G!maplen" {
-				keep[n] = true
-			}
-		}
-		for n := range fc.g.specs.Ghosts {
-			keep["G!"+n] = true
-		}
-		nst = st.havocAll(keep)
+		nst = st.havocAll(fc.ghostKeep(ms))
 		fc.regArr("$top", "Int")
 		fc.note("call of " + name + " without contract: result and heap unconstrained; ghost resources framed (callee assumed not to touch pools, locks or files of this activation)")
 	}
@@ -783,7 +774,7 @@ func (fr *Frame) applyContract(sp *FuncSpec, fn *ssa.Function, name string, pnam
 			if c.Site == fmt.Sprintf("%s#%d", name, occ) || c.Site == name+"#*" {
 				cenv := fr.specEnv(st, nil, nil)
 				cenv.localsFirst = true
-				cenv.lookup = func(n string) (Val, bool) {
+				cenv.lookup = func(n string, st *State) (Val, bool) {
 					if v, ok := env.names["$"+n]; ok {
 						return v, true
 					}
@@ -806,7 +797,9 @@ func (fr *Frame) applyContract(sp *FuncSpec, fn *ssa.Function, name string, pnam
 			continue
 		}
 		f := env.bool(c.Expr)
-		if fc.spec != nil {
+		if c.WF && fc.thin {
+			fc.note("thin mode: well-formedness precondition of " + name + " assumed: " + c.Text)
+		} else if fc.spec != nil {
 			tags := c.Tags
 			fc.addOblig(&Oblig{Name: fmt.Sprintf("%s/requires#%d@%s#%d", fc.spec.Name, c.Ord, name, occ), Kind: "requires@call", Tags: unionTags(tags, fc.spec.Tags), goal: sImp(guard, f), Text: name + " requires " + c.Text, Spec: c})
 		}
@@ -852,11 +845,7 @@ func (fr *Frame) applyContract(sp *FuncSpec, fn *ssa.Function, name string, pnam
 	}
 	var nst *State
 	if ms.All {
-		keep := map[string]bool{}
-		for n := range fc.g.specs.Ghosts {
-			keep["G!"+n] = true
-		}
-		nst = st.havocAll(keep)
+		nst = st.havocAll(fc.ghostKeep(ms))
 	} else {
 		set := map[string]bool{}
 		for n := range ms.Names {
@@ -868,11 +857,36 @@ func (fr *Frame) applyContract(sp *FuncSpec, fn *ssa.Function, name string, pnam
 		for _, n := range fc.g.freshMods(fc, sp) {
 			fv := fc.freshName(n + "@nw")
 			fc.declareConst(fv, fc.sorts[n])
-			fc.define(fmt.Sprintf("(forall ((q!r Int)) (! (=> (<= q!r %s) (= (select %s q!r) (select %s q!r))) :pattern ((select %s q!r))))", st.get("$top"), sym(fv), st.get(n), sym(fv)))
+			fc.defineQ(fmt.Sprintf("(forall ((q!r Int)) (! (=> (<= q!r %s) (= (select %s q!r) (select %s q!r))) :pattern ((select %s q!r))))", st.get("$top"), sym(fv), st.get(n), sym(fv)))
 			nst = nst.setRaw(n, sym(fv))
 		}
+		kenv := *env
+		kenv.names = map[string]Val{}
+		for k, v := range env.names {
+			kenv.names[k] = v
+		}
+		{
+			rn := sp.Results
+			if rn == nil {
+				for i := 0; i < sig.Results().Len(); i++ {
+					rn = append(rn, sig.Results().At(i).Name())
+				}
+			}
+			if sig.Results().Len() == 1 {
+				kenv.names["result"] = res
+				if len(rn) == 1 && rn[0] != "" {
+					kenv.names[rn[0]] = res
+				}
+			} else {
+				for i := 0; i < sig.Results().Len() && i < len(res.Sub); i++ {
+					if i < len(rn) && rn[i] != "" && rn[i] != "_" {
+						kenv.names[rn[i]] = res.Sub[i]
+					}
+				}
+			}
+		}
 		for _, pm := range fc.g.pointMods(fc, sp) {
-			kv := env.tr(pm.key)
+			kv := kenv.tr(pm.key)
 			k := kv.S
 			if kindOf(kv.T) == KIface {
 				k = kv.Sub[1].S
@@ -886,7 +900,7 @@ func (fr *Frame) applyContract(sp *FuncSpec, fn *ssa.Function, name string, pnam
 				cur := nst.get(n)
 				upd := sx("store", cur, k, sym(fv))
 				if pm.cond != nil {
-					upd = sIte(env.bool(pm.cond), upd, cur)
+					upd = sIte(kenv.bool(pm.cond), upd, cur)
 				}
 				nst = nst.store(n, upd)
 			}
@@ -1065,11 +1079,15 @@ func (fr *Frame) builtin(in ssa.Instruction, bi *ssa.Builtin, c *ssa.CallCommon,
 			inNew := sAnd(m.cmp(token.LEQ, e.idxAdd(toff, s.Sub[2].S), q, tInt), m.cmp(token.LSS, q, e.idxAdd(toff, newLen), tInt))
 			oldElem := sx("select", sx("select", old, s.Sub[0].S), e.idxAdd(s.Sub[1].S, e.idxSub(q, toff)))
 			keepElem := sx("select", sx("select", old, tb), q)
+			if fc.thin {
+				st = st.setRaw(an, sym(nw)) // thin mode: element contents after append are not tracked
+				continue
+			}
 			rowDef := fmt.Sprintf("(forall ((q!i %s)) (! (= (select (select %s %s) q!i) (ite %s %s (ite %s %s %s))) :pattern ((select (select %s %s) q!i))))",
 				m.idxSort(), sym(nw), tb, inNew, srcElem, inPrefix, oldElem, sIte(fits, keepElem, zeroLeaf(fc, et, l[0])), sym(nw), tb)
 			others := fmt.Sprintf("(forall ((q!r Int)) (! (=> (not (= q!r %s)) (= (select %s q!r) (select %s q!r))) :pattern ((select %s q!r))))", tb, sym(nw), old, sym(nw))
-			fc.define(sImp(sNot(sEq(tb, "0")), rowDef))
-			fc.define(others)
+			fc.defineQ(sImp(sNot(sEq(tb, "0")), rowDef))
+			fc.defineQ(others)
 			fc.define(sImp(sEq(tb, "0"), sEq(sym(nw), old)))
 			st = st.setRaw(an, sym(nw))
 		}
@@ -1108,12 +1126,16 @@ func (fr *Frame) builtin(in ssa.Instruction, bi *ssa.Builtin, c *ssa.CallCommon,
 			} else {
 				srcElem = sx("select", sx("select", old, s.Sub[0].S), e.idxAdd(s.Sub[1].S, e.idxSub(q, d.Sub[1].S)))
 			}
+			if fc.thin {
+				st = st.setRaw(an, sym(nw)) // thin mode: element contents after copy are not tracked
+				continue
+			}
 			inDst := sAnd(m.cmp(token.LEQ, d.Sub[1].S, q, tInt), m.cmp(token.LSS, q, e.idxAdd(d.Sub[1].S, sym(nn)), tInt))
 			rowDef := fmt.Sprintf("(forall ((q!i %s)) (! (= (select (select %s %s) q!i) (ite %s %s (select (select %s %s) q!i))) :pattern ((select (select %s %s) q!i))))",
 				m.idxSort(), sym(nw), d.Sub[0].S, inDst, srcElem, old, d.Sub[0].S, sym(nw), d.Sub[0].S)
 			others := fmt.Sprintf("(forall ((q!r Int)) (! (=> (not (= q!r %s)) (= (select %s q!r) (select %s q!r))) :pattern ((select %s q!r))))", d.Sub[0].S, sym(nw), old, sym(nw))
-			fc.define(rowDef)
-			fc.define(others)
+			fc.defineQ(rowDef)
+			fc.defineQ(others)
 			st = st.setRaw(an, sym(nw))
 		}
 		return st
@@ -1213,4 +1235,18 @@ func (g *Gen) implementers(c *ssa.CallCommon) []implRec {
 		}
 	}
 	return out
+}
+
+// ghostKeep: ghost resources survive a heap-wide havoc unless the modifies set names them.
+func (fc *FnCtx) ghostKeep(ms *ModSet) map[string]bool {
+	keep := map[string]bool{}
+	for n := range fc.g.specs.Ghosts {
+		if ms == nil || !ms.Names["G!"+n] {
+			keep["G!"+n] = true
+		}
+	}
+	if ms == nil || !ms.Names["G!chanClosed"] {
+		keep["G!chanClosed"] = true
+	}
+	return keep
 }
